@@ -37,6 +37,10 @@ pub struct Case {
     /// async modes: every second poll runs on a fresh OS thread (task migration)
     #[serde(default)]
     pub migrate: bool,
+    /// how the caller reads the payload: 0 plain reads, 1 vectored reads, 2 first reads through one interface of the
+    /// payload and the rest through the other, 3 the response moves to another OS thread between blocking reads
+    #[serde(default)]
+    pub quirk: u8,
 }
 
 #[derive(Clone, Copy)]
@@ -101,7 +105,15 @@ impl Prop for C06 {
             cross: cross_payload,
             max_events: 4096,
         };
-        let (style, trace) = gen_trace(rng, head_len, total, &toks, &opts);
+        let (style, mut trace) = gen_trace(rng, head_len, total, &toks, &opts);
+        crate::gen::add_rare_events(rng, &mut trace, &opts, true);
+        let quirk = if !rng.chance(1, 4) {
+            crate::drive::QUIRK_NONE
+        } else if cross_payload {
+            *rng.pick(&[crate::drive::QUIRK_VECTORED, crate::drive::QUIRK_MIXED, crate::drive::QUIRK_MIXED, if mode == Mode::AsyncParse { crate::drive::QUIRK_HANDOVER } else { crate::drive::QUIRK_MIXED }])
+        } else {
+            crate::drive::QUIRK_VECTORED
+        };
         let boundary_fault = rng.chance(1, 8);
         let n_sizes = rng.usize(0, 4);
         let payload_buf_sizes = (0..n_sizes).map(|_| *rng.pick(&[1u32, 2, 7, 64, 4096, 8191, 8192, 8193, 65536])).collect();
@@ -116,6 +128,7 @@ impl Prop for C06 {
             parts_into_payload: rng.chance(1, 2),
             cross_payload,
             migrate: mode.is_async() && !cross_payload && rng.chance(1, 8),
+            quirk,
         }
     }
 
@@ -155,7 +168,15 @@ impl Prop for C06 {
         let max_polls = case.spec.trace.len() as u64 * 3 + data.len() as u64 * 2 + 64;
         crate::drive::CROSS_PAYLOAD.with(|c| c.set(case.cross_payload));
         crate::exec::MIGRATE.with(|m| m.set(case.migrate));
+        crate::drive::QUIRK.with(|q| q.set(case.quirk));
         let pr = run_parser_opt(&core, &src, case.mode, max_polls, true, &case.payload_buf_sizes, data.len() + 16, case.parts_into_payload);
+        crate::drive::QUIRK.with(|q| q.set(0));
+        match case.quirk {
+            crate::drive::QUIRK_VECTORED => rep.count("payload_read_with_vectored_reads", 1),
+            crate::drive::QUIRK_MIXED if case.cross_payload => rep.count("payload_read_through_both_interfaces_in_turn", 1),
+            crate::drive::QUIRK_HANDOVER if case.cross_payload => rep.count("payload_reader_handed_to_another_thread", 1),
+            _ => {}
+        }
         crate::drive::CROSS_PAYLOAD.with(|c| c.set(false));
         crate::exec::MIGRATE.with(|m| m.set(false));
         rep.count("executor_polls_on_a_fresh_thread", pr.exec.migrated_polls);
@@ -174,6 +195,13 @@ impl Prop for C06 {
         rep.count("chunks_delivered", st.gives);
         rep.count("short_reads", st.short_gives);
         rep.count("eintr_fired", st.eintr);
+        rep.count("slow_calls_on_the_clock_seam", st.slow_calls);
+        if st.eintr > 1024 {
+            rep.count("runs_with_more_than_1024_interrupted_results", 1);
+        }
+        if st.pend_inline > 1024 {
+            rep.count("runs_with_more_than_1024_not_ready_results", 1);
+        }
         rep.count("pending_inline_fired", st.pend_inline);
         rep.count("pending_deferred_fired", st.pend_after);
         rep.count("polled_while_blocked", st.blocked_polls);
@@ -281,6 +309,9 @@ impl Prop for C06 {
         if c.migrate {
             out.push(Case { migrate: false, ..c.clone() });
         }
+        if c.quirk != 0 {
+            out.push(Case { quirk: 0, ..c.clone() });
+        }
         if c.cross_payload && !c.spec.trace.iter().any(|e| matches!(e, crate::wire::Ev::Pend { .. })) {
             out.push(Case { cross_payload: false, ..c.clone() });
         }
@@ -288,7 +319,7 @@ impl Prop for C06 {
     }
 
     fn rule(&self) -> String {
-        "Each run: a seeded well-formed message (reference-encoded wire tree incl. forms the crate never emits, or a crate-encoded model message under seeded hash keys) + seeded payload, delivered by a scripted source as a seeded composition of the stream into chunks with EINTR (blocking) / Pending with inline or deferred wake and spurious polls (async) at chunk boundaries; one of the four front ends (parse / parse_parts x blocking / async); after parse_parts the rest is read through reader.into_inner() or reader.into_payload(); after parse() the payload is read through the interface of the same kind or, in a third of those runs, through the other one (blocking parse -> AsyncRead via AllowStdIo on the scripted executor, async parse -> blocking Read over the real block_on bridge). Names, values and payloads include size classes around 4 KiB / 8 KiB / 16 KiB / 64 KiB and the 16-bit limit. Oracle: source byte counter == offset of the end-of-attributes tag at the instant of return; result == unfragmented parse; payload read back through the returned interface == payload (or the armed boundary error is met first). distinct_nontrivial = distinct hashes of the observed (request size, result) call sequence at the source, among runs where at least one chunk boundary / EINTR / Pending fell strictly inside header+attributes of a message with >= 1 attribute."
+        "Each run: a seeded well-formed message (reference-encoded wire tree incl. forms the crate never emits, or a crate-encoded model message under seeded hash keys) + seeded payload, delivered by a scripted source as a seeded composition of the stream into chunks with EINTR (blocking) / Pending with inline or deferred wake and spurious polls (async) at chunk boundaries; one of the four front ends (parse / parse_parts x blocking / async); after parse_parts the rest is read through reader.into_inner() or reader.into_payload(); after parse() the payload is read through the interface of the same kind or, in a third of those runs, through the other one (blocking parse -> AsyncRead via AllowStdIo on the scripted executor, async parse -> blocking Read over the real block_on bridge). In a quarter of the runs the caller reads the payload in an unusual but legal way: vectored reads (short first buffer), the first reads through one interface of the IppPayload and the rest through the other, or - blocking reads of an async-parsed payload - the response is handed to another OS thread after the first reads. Rare schedule events: a burst of 1025-5000 consecutive Interrupted / not-ready results at one point of the stream; one call that takes 260-1500 ms on the clock seam (LD_PRELOAD clock_gettime, nothing really waits). Names, values and payloads include size classes around 4 KiB / 8 KiB / 16 KiB / 64 KiB and the 16-bit limit. Oracle: source byte counter == offset of the end-of-attributes tag at the instant of return; result == unfragmented parse; payload read back through the returned interface == payload (or the armed boundary error is met first). distinct_nontrivial = distinct hashes of the observed (request size, result) call sequence at the source, among runs where at least one chunk boundary / EINTR / Pending fell strictly inside header+attributes of a message with >= 1 attribute."
             .into()
     }
     fn assumptions(&self) -> Vec<String> {
